@@ -37,6 +37,7 @@ import TxdbusModel.Auth.ClientOrig
 import TxdbusModel.Proofs.Auth.Handshake2Inv
 import TxdbusModel.Proofs.Auth.Handshake2Keyring
 import TxdbusModel.Proofs.Auth.Handshake2Wire
+import TxdbusModel.Auth.ClientSha1
 
 namespace Txdbus.AuthClient
 
@@ -391,61 +392,128 @@ end Txdbus.AuthClient
 Model: `Auth/Handshake2.lean` - the client model of this property and the bus model of C06 (`AuthServer.Proto` over the
 real mechanisms and `RealWorld`) joined by two byte queues; a `Move` hands a non-empty prefix of one queue to the
 receiver as one read; `run cfg (init cfg) ms` is the state after the schedule `ms`; `Reach` = reachable by some
-schedule (`reach_iff_run`).  Hypotheses (`Hyp`): the GUID is hex text, every line fits the 16384-byte limit of its
-receiver (user name, text of the client's ERROR line, the bus's answer to AUTH DBUS_COOKIE_SHA1), ERROR texts hold
-no CR, SHA-1 digests have 20 bytes.  The proofs are direct (a phase invariant of the composition,
-`Proofs/Auth/Handshake2{Bytes,Lines,Phase,Inv}.lean`), not a corollary of `completes_against_spec_server_bytes` and
-C06's `refines_spec_server`: the reference server of this file is one deterministic server per configuration, and
-the bus's cookie exchange (cookie id and challenge depend on the keyring and on `os.urandom`) is not an instance of
-it; what is reused from C06 are the per-line lemmas of `Proofs/Auth/Server{Mechs,RealSafe,Lines,Conform}.lean`. -/
+schedule (`reach_iff_run`).
+
+What is proved WITHOUT environment hypotheses (any `cfg`, at most "the GUID holds no CR"): the bus's part of every
+composed run is a `runReads` of C06's model, so C06's theorems apply (`own_bus_bus_is_c06_run`,
+`own_bus_bus_authenticated_only_after_accept`); C07's safety invariant holds of the client's part and every line the
+client is handed was written by the bus (`own_bus_begin_only_after_bus_ok`); the bus's binary branch is empty while it
+is in line mode (`own_bus_line_mode_binary_empty`).
+
+What is proved under `Hyp` (the handshakes that can succeed: the GUID is hex text, every line fits the 16384-byte limit
+of its receiver - user name, text of the client's ERROR line, the bus's answer to AUTH DBUS_COOKIE_SHA1 -, ERROR texts hold
+no CR, SHA-1 digests have 20 bytes): completion, progress, termination under fair delivery, and the full safety
+clause (`..._partial`: the name says that `Hyp` is assumed).
+
+EXCLUDED BY THE TYPES of `Cfg` / of the two models, not by `Hyp` (see notes/C07.md): a login name that
+`getpass.getuser().encode('ascii')` cannot encode (`Cfg.user : Bytes`); failures of the bus's `mkdir` / `rename` / lock
+file (C06: not modelled - a bus that cannot create `<home>/.dbus-keyrings` answers REJECTED where the model sends a
+challenge); the clock is constant during a handshake (`now`; by `_step_two` the verdict uses the cookie in memory, only
+the file contents left behind can depend on delays); keyrings are keyed by the home path bytes (`HOME=/root/` and
+`pw_dir=/root` are different keyrings in the model); one connection (two clients sharing one cookie file are not composed).
+
+The proofs are direct (a phase invariant with a measure, `Proofs/Auth/Handshake2{Bytes,Lines,Phase,Inv,Keyring,Wire}.lean`),
+not a corollary of `completes_against_spec_server_bytes` + C06's `refines_spec_server`: the reference server of this
+file is one deterministic server per configuration, the bus's cookie exchange is not an instance of it. -/
 
 namespace Txdbus.Handshake2
 
 open Txdbus.AuthClient (sends lBEGIN)
 
-/-- COMPLETION, for every schedule.  If after the schedule `ms` nothing is in flight (both queues empty - every byte
-written was delivered), then: the client is authenticated, wrote BEGIN exactly once, did not close, and the
-mechanism it ended with is `mechAt (expectedMech cfg)`; the bus is authenticated (binary mode), neither closed nor
-crashed, exactly one mechanism step accepted in the whole conversation and it is that mechanism
-(EXTERNAL when the peer credentials carry a uid with a passwd entry, else DBUS_COOKIE_SHA1 when the keyring is usable -
-`keyringUsable` - else ANONYMOUS), `getUserName()` gave the bus a user name, the bus's binary branch received exactly
-the client's Hello call and the client's binary branch nothing. -/
+/-- What a completed handshake looks like: the client is authenticated, wrote BEGIN exactly once, did not close and
+ended with mechanism number `expectedMech cfg` of its list; the bus is authenticated (binary mode), neither closed nor
+crashed, exactly one mechanism step accepted in the whole conversation and it is that mechanism, `getUserName()` gave
+the bus a user name, the bus's binary branch received exactly the client's Hello call and the client's nothing. -/
+def Completed (cfg : Cfg) (st : State) : Prop :=
+  st.c.authenticated = true ∧ (sends st.c.trace).count lBEGIN = 1 ∧ st.c.disconnecting = false ∧
+  st.c.auth.authMech = some (mechAt (expectedMech cfg)) ∧
+  st.s.authenticated = true ∧ st.s.closed = false ∧ st.s.crashed = false ∧
+  accepts st.s.log = [mechAt (expectedMech cfg)] ∧ st.s.guid.isSome = true ∧
+  st.s.binary = cfg.hello ∧ st.c.binary = []
+
+/-- COMPLETION, for every schedule: if after `ms` nothing is in flight (both queues empty), the handshake is `Completed`.
+"Nothing in flight" looks at the queues only, not at the receivers' line buffers; that is sound because a partly read
+line always has its rest still queued (`Inv.midS/midC` carry `rest ≠ []`; `inv_quiescent`).
+The mechanism clause is SCHEDULE INDEPENDENCE: `expectedMech cfg` is computed by running the two models on whole lines
+(`credsOk`, `keyringUsable`), and the theorem says that every schedule of cuts ends with that mechanism; what the
+environment has to look like is said by `own_bus_cookie_when_shared_keyring` (sufficient) and `own_bus_cookie_requires`
+(necessary, bus side). -/
 theorem own_bus_handshake_completes (cfg : Cfg) (hyp : Hyp cfg) (ms : List Move)
-    (hq : (run cfg (init cfg) ms).quiescent = true) :
-    let st := run cfg (init cfg) ms
-    st.c.authenticated = true ∧ (sends st.c.trace).count lBEGIN = 1 ∧ st.c.disconnecting = false ∧
-    st.c.auth.authMech = some (mechAt (expectedMech cfg)) ∧
-    st.s.authenticated = true ∧ st.s.closed = false ∧ st.s.crashed = false ∧
-    accepts st.s.log = [mechAt (expectedMech cfg)] ∧ st.s.guid.isSome = true ∧
-    st.s.binary = cfg.hello ∧ st.c.binary = [] := by
-  intro st
-  obtain ⟨hd, hc⟩ := inv_quiescent (inv_run hyp (inv_init cfg) ms) hq
+    (hq : (run cfg (init cfg) ms).quiescent = true) : Completed cfg (run cfg (init cfg) ms) := by
+  obtain ⟨n, hi⟩ := inv_run hyp (inv_init cfg) ms
+  obtain ⟨hd, hc⟩ := inv_quiescent hi hq
   refine ⟨hd.cAuth, hd.cBegin, hd.cOpen, hd.cMech, hd.sAuth, hd.sOpen, hd.sAlive, hd.acc, hd.guid, ?_, hd.cBin⟩
   have := hd.bin
   rw [hc, List.append_nil] at this
   exact this
 
-/-- PROGRESS: such schedules exist from every reachable state - whatever the adversary did so far (`ms`), a
-continuation `ms'` delivers every queued byte and leaves nothing in flight (so the handshake never gets stuck and
-`own_bus_handshake_completes` applies to `ms ++ ms'`). -/
+/-- PROGRESS: whatever the adversary did so far (`ms`), a continuation `ms'` leaves nothing in flight. -/
 theorem own_bus_handshake_progress (cfg : Cfg) (hyp : Hyp cfg) (ms : List Move) :
     ∃ ms', (run cfg (init cfg) (ms ++ ms')).quiescent = true := by
-  obtain ⟨ms', h⟩ := inv_progress hyp (inv_run hyp (inv_init cfg) ms)
+  obtain ⟨n, hi⟩ := inv_run hyp (inv_init cfg) ms
+  obtain ⟨ms', h⟩ := inv_progress hyp hi
   exact ⟨ms', by simpa [run] using h⟩
 
-/-- SAFETY, in every reachable state (`Safe`): (1) the client has written BEGIN / run `connectionAuthenticated()` (which
-writes the first binary message) / entered binary mode only if the bus has already written `OK <guid>` for a
-mechanism whose step accepted; (2) while the bus is in line mode its binary branch has received nothing, and if the
-client is already in binary mode the bus's line buffer is a proper prefix of `BEGIN\r\n` and the whole Hello call is
-still queued: no binary byte has reached the bus in line mode; (3) once the bus is in binary mode, what its binary
-branch received ++ what is still queued = the Hello call: nothing was read as a line, nothing lost. -/
-theorem own_bus_no_early_binary (cfg : Cfg) (hyp : Hyp cfg) (ms : List Move) :
-    Safe cfg (run cfg (init cfg) ms) :=
-  inv_safe (inv_run hyp (inv_init cfg) ms)
+/-- TERMINATION: a schedule in which every move delivers at least one byte (`AllEffective`: each move is made on a
+non-empty queue) has at most `15 * 16387 + |Hello|` moves.  (The measure carried by `Inv`: rank of the phase, then
+the bytes of the line in flight still queued; a move on an empty queue changes nothing.) -/
+theorem own_bus_handshake_terminates (cfg : Cfg) (hyp : Hyp cfg) (ms : List Move)
+    (h : AllEffective cfg (init cfg) ms) : ms.length ≤ 15 * 16387 + cfg.hello.length := by
+  have := inv_moves_bounded hyp ms (inv_init cfg) h
+  have hW : W = 16387 := rfl
+  rw [hW] at this
+  omega
+
+/-- ALWAYS COMPLETES UNDER FAIR DELIVERY: an infinite schedule `sched` that, as long as something is in flight,
+makes a move that delivers at least one byte, reaches within `15 * 16387 + |Hello|` moves a state with nothing in
+flight, and that state is the completed handshake. -/
+theorem own_bus_handshake_always_completes (cfg : Cfg) (hyp : Hyp cfg) (sched : Nat → Move)
+    (hfair : ∀ k, (run cfg (init cfg) (prefixOf sched k)).quiescent = false →
+      effective (run cfg (init cfg) (prefixOf sched k)) (sched k) = true) :
+    ∃ k, k ≤ 15 * 16387 + cfg.hello.length ∧ (run cfg (init cfg) (prefixOf sched k)).quiescent = true ∧
+      Completed cfg (run cfg (init cfg) (prefixOf sched k)) := by
+  obtain ⟨k, hk, hq⟩ := inv_fair_completes hyp _ _ (inv_init cfg) sched hfair
+  have hW : W = 16387 := rfl
+  rw [hW] at hk
+  exact ⟨k, by omega, hq, own_bus_handshake_completes cfg hyp _ hq⟩
+
+/-- SAFETY UNDER `Hyp` (hence `_partial`; what is missing: clauses 2b and 3 without `Hyp` - clauses 1 and 2a are proved
+without it below): in every reachable state (`Safe`) (1) the client has written BEGIN / run `connectionAuthenticated()` /
+entered binary mode only if the bus has already written `OK <guid>` for a mechanism whose step accepted; (2) while
+the bus is in line mode (a) its binary branch has received nothing and (b) if the client is already in binary mode the
+bus's line buffer is a proper prefix of `BEGIN\r\n` and the whole Hello call is still queued; (3) once the bus is in
+binary mode, what its binary branch received ++ what is still queued = the Hello call. -/
+theorem own_bus_no_early_binary_partial (cfg : Cfg) (hyp : Hyp cfg) (ms : List Move) :
+    Safe cfg (run cfg (init cfg) ms) := by
+  obtain ⟨n, hi⟩ := inv_run hyp (inv_init cfg) ms
+  exact inv_safe hi
 
 /-- The same for `Reach` (the inductive form of "reachable"). -/
-theorem own_bus_reachable_safe (cfg : Cfg) (hyp : Hyp cfg) (st : State) (h : Reach cfg st) : Safe cfg st :=
-  inv_safe (reach_inv hyp h)
+theorem own_bus_reachable_safe_partial (cfg : Cfg) (hyp : Hyp cfg) (st : State) (h : Reach cfg st) : Safe cfg st := by
+  obtain ⟨n, hi⟩ := reach_inv hyp h
+  exact inv_safe hi
+
+/-- Clause 2a WITHOUT ANY HYPOTHESIS: in every reachable state of every configuration, a bus in line mode has handed
+nothing to its binary branch. -/
+theorem own_bus_line_mode_binary_empty (cfg : Cfg) (ms : List Move) :
+    (run cfg (init cfg) ms).s.authenticated = false → (run cfg (init cfg) ms).s.binary = [] :=
+  bus_line_mode_binary_empty cfg ms
+
+/-- PROJECTION ONTO C06, without hypotheses: the bus's part of the composed state after any schedule is C06's
+`runReads real (Proto.init guid w0) reads` for the non-empty pieces the adversary delivered. -/
+theorem own_bus_bus_is_c06_run (cfg : Cfg) (ms : List Move) :
+    ∃ reads, (∀ r ∈ reads, r ≠ []) ∧
+      (run cfg (init cfg) ms).s = AuthServer.runReads AuthServer.real (AuthServer.Proto.init cfg.guid cfg.w0) reads :=
+  bus_is_runReads cfg ms
+
+/-- ... hence C06's safety theorem holds of the composition, without `Hyp`: a bus that is authenticated after a
+schedule went through an accepting step of an offered mechanism followed (without a rejection in between) by BEGIN
+as the last line it handled, and it did not close. -/
+theorem own_bus_bus_authenticated_only_after_accept (cfg : Cfg) (ms : List Move)
+    (h : (run cfg (init cfg) ms).s.authenticated = true) :
+    AuthServer.AuthWitness AuthServer.real.offered (run cfg (init cfg) ms).s.log ∧
+    (run cfg (init cfg) ms).s.closed = false :=
+  bus_authenticated_only_after_accept cfg ms h
 
 /-- C07's SAFETY THEOREM COMPOSED WITH THE BUS, without `Hyp`: for every configuration whose bus GUID holds no CR -
 nothing is assumed about line lengths, user names, keyrings, hashes - and every schedule: (1) every BEGIN of the
@@ -466,8 +534,10 @@ theorem own_bus_begin_only_after_bus_ok (cfg : Cfg) (hg : AuthServer.NoCR cfg.gu
   have hw : Wire cfg st := wire_run hg ms (wire_init cfg)
   exact ⟨hb.begins, hb.authIff, hb.authEv, fun l hl => recv_was_sent hw l hl, fun h => begin_needs_bus_ok hw hb h⟩
 
-/-- Which mechanism: by cases on the environment. -/
-theorem own_bus_mechanism (cfg : Cfg) :
+/-- `expectedMech` unfolded (this restates its definition, it has no content of its own): EXTERNAL when `credsOk`, else
+DBUS_COOKIE_SHA1 when `keyringUsable`, else ANONYMOUS.  `credsOk` is environmental (the peer credentials carry a uid with
+a passwd entry); `keyringUsable` is the outcome of the models' own three-line exchange - see the next two theorems. -/
+theorem own_bus_expected_mechanism_unfolded (cfg : Cfg) :
     (credsOk cfg = true → mechAt (expectedMech cfg) = b!"EXTERNAL") ∧
     (credsOk cfg = false → keyringUsable cfg = true → mechAt (expectedMech cfg) = b!"DBUS_COOKIE_SHA1") ∧
     (credsOk cfg = false → keyringUsable cfg = false → mechAt (expectedMech cfg) = b!"ANONYMOUS") := by
@@ -482,11 +552,12 @@ the bus accepts (absent - it creates it - or without group/other bits); the clie
 directory passes the client's own `os.stat` tests (mode & 0o066 = 0, owned by its euid; for a directory the bus
 creates: the bus is not root, or the entry's uid is the client's euid); the context name is one clean ASCII token; the
 unexpired cookies already in the file are blank-free tokens; SHA-1 digests have 20 bytes and `os.urandom(24)` is not
-empty.  Then the mechanism of the completed handshake is DBUS_COOKIE_SHA1 unless EXTERNAL is available. -/
+empty.  Then the mechanism of the completed handshake is DBUS_COOKIE_SHA1 unless EXTERNAL is available.
+Assumes what the two models assume: the bus's `mkdir` / lock file / `rename` succeed (C06: not modelled). -/
 theorem own_bus_cookie_when_shared_keyring (cfg : Cfg) (e : AuthServer.PwEnt) (h : SharedKeyring cfg e) :
     keyringUsable cfg = true ∧ (credsOk cfg = false → mechAt (expectedMech cfg) = b!"DBUS_COOKIE_SHA1") := by
   have hk := keyringUsable_of_shared_keyring cfg e h
-  exact ⟨hk, fun h0 => (own_bus_mechanism cfg).2.1 h0 hk⟩
+  exact ⟨hk, fun h0 => (own_bus_expected_mechanism_unfolded cfg).2.1 h0 hk⟩
 
 /-- NECESSARY for "the keyring is usable" (bus side): without a non-empty ASCII user name that resolves to a passwd
 entry whose keyring directory is absent or good, DBUS_COOKIE_SHA1 is not the mechanism (the handshake ends with
@@ -495,6 +566,11 @@ theorem own_bus_cookie_requires (cfg : Cfg) (h : keyringUsable cfg = true) :
     cfg.user ≠ [] ∧ AuthServer.isAscii cfg.user = true ∧
     ∃ e, busUserEntry cfg = some e ∧ AuthServer.lookupDir cfg.w0 e.home ≠ .bad :=
   keyringUsable_requires cfg h
+
+/-- `Hyp.sha` holds for the executable SHA-1 the driver uses (so the theorems apply to the configurations the
+correspondence stream `own-bus-handshake` compares). -/
+theorem driver_sha1_length (x : Bytes) : (AuthClient.Sha1.sha1 x).length = 20 := by
+  simp [AuthClient.Sha1.sha1, AuthClient.Sha1.toBytes32]
 
 /-! ### the hypotheses are satisfiable; the three mechanisms occur -/
 
@@ -511,7 +587,7 @@ def world (creds : Option Int) (dirs : List (Bytes × AuthServer.DirState)) : Re
 
 def cfg (unix : Bool) (creds : Option Int) (dirs : List (Bytes × AuthServer.DirState)) : Cfg :=
   { unix := unix, guid := b!"0102", hello := [108, 1, 0, 1], user := b!"root", clientHome := b!"/root",
-    initStat := (0o40700, true), root := true, euid := 0, errText := fun _ => b!"e", w0 := world creds dirs }
+    initStat := (0o40700, true), busEuid := 0, euid := 0, errText := fun _ => b!"e", w0 := world creds dirs }
 
 theorem sha_length (x : Bytes) : (sha x).length = 20 := by
   unfold sha; simp
@@ -553,6 +629,37 @@ example : SharedKeyring (cfg true none []) ⟨b!"root", 0, 0, b!"/root"⟩ where
   old := fun c hc => by
     have : AuthServer.getCookies (cfg true none []).w0 (b!"/root") = [] := by decide +kernel
     rw [this] at hc; cases hc
+
+/-- a world in which root's keyring directory exists (good) and the bus's cookie file already holds an unexpired
+entry with id 3 (the new cookie gets id 4) -/
+def cfgOld : Cfg :=
+  { cfg false none [(b!"/root", .good)] with
+    w0 := { world none [(b!"/root", .good)] with files := [(b!"/root", [⟨3, 95, b!"aabb"⟩])] } }
+
+/-- `SharedKeyring` with a PRE-EXISTING keyring (the `else` branch of `stat`, a non-empty `old`) -/
+example : SharedKeyring cfgOld ⟨b!"root", 0, 0, b!"/root"⟩ where
+  user0 := by decide
+  userAscii := by decide
+  entry := by rfl
+  dir := by decide +kernel
+  home := rfl
+  stat := by decide +kernel
+  ctx := ⟨⟨by decide, by decide⟩, by decide, by decide⟩
+  sha := sha_length
+  rnd := fun k => by show List.replicate 24 (UInt8.ofNat (k + 65)) ≠ []; simp
+  old := fun c hc => by
+    have : AuthServer.getCookies cfgOld.w0 (b!"/root") = [⟨3, 95, b!"aabb"⟩] := by rfl
+    rw [this] at hc
+    simp only [List.mem_singleton] at hc
+    rw [hc]
+    exact ⟨by decide, by decide⟩
+
+/-- ... and there the handshake ends with DBUS_COOKIE_SHA1 -/
+example : expectedMech cfgOld = 1 := by decide +kernel
+
+/-- a bus that is NOT root (euid 1000) creates the keyring directory of root: it belongs to uid 1000, the client (euid 0)
+refuses it, the handshake falls back to ANONYMOUS -/
+example : expectedMech { cfg false none [] with busEuid := 1000 } = 2 := by decide +kernel
 
 /-- no credentials, the keyring directory is not usable: ANONYMOUS; the hypotheses hold -/
 example : expectedMech (cfg false none [(b!"/root", .bad)]) = 2 ∧ Hyp (cfg false none [(b!"/root", .bad)]) :=
@@ -598,10 +705,16 @@ end Txdbus.Handshake2
 #print axioms Txdbus.AuthClient.prefix_model_data_during_anonymous_stalls
 #print axioms Txdbus.Handshake2.own_bus_handshake_completes
 #print axioms Txdbus.Handshake2.own_bus_handshake_progress
-#print axioms Txdbus.Handshake2.own_bus_no_early_binary
-#print axioms Txdbus.Handshake2.own_bus_reachable_safe
+#print axioms Txdbus.Handshake2.own_bus_handshake_terminates
+#print axioms Txdbus.Handshake2.own_bus_handshake_always_completes
+#print axioms Txdbus.Handshake2.own_bus_no_early_binary_partial
+#print axioms Txdbus.Handshake2.own_bus_reachable_safe_partial
+#print axioms Txdbus.Handshake2.own_bus_line_mode_binary_empty
+#print axioms Txdbus.Handshake2.own_bus_bus_is_c06_run
+#print axioms Txdbus.Handshake2.own_bus_bus_authenticated_only_after_accept
 #print axioms Txdbus.Handshake2.own_bus_begin_only_after_bus_ok
-#print axioms Txdbus.Handshake2.own_bus_mechanism
+#print axioms Txdbus.Handshake2.own_bus_expected_mechanism_unfolded
+#print axioms Txdbus.Handshake2.driver_sha1_length
 #print axioms Txdbus.Handshake2.own_bus_cookie_when_shared_keyring
 #print axioms Txdbus.Handshake2.own_bus_cookie_requires
 #print axioms Txdbus.Handshake2.Example.sha_length
